@@ -12,9 +12,23 @@ Rec == ndJsonDeserialize(IOEnv.TRACE)
 
 VARIABLES l,     \* current line
           pos,   \* symbols of the current line already consumed
-          bad    \* mismatching lines with the automaton's final state
+          bad,   \* mismatching lines with the automaton's final state
+          sp,    \* <<start, end>> (0-based, end exclusive) of the value of the first key "info" in the
+                 \* first top-level dictionary of the current line; 0 = not seen (yet)
+          spans  \* sp of every finished line (for C05: the byte span the info-hash must cover)
 
-tvars == <<vars, l, pos, bad>>
+tvars == <<vars, l, pos, bad, sp, spans>>
+
+KInfoSyms == <<"i", "n", "f", "o">>
+\* the first top-level value is a dictionary and we are directly inside it
+InDoc(st) == Len(st) = 2 /\ st[2].k = "d" /\ Len(st[1].items) = 0
+LastKeyIsInfo(its) == Len(its) >= 1 /\ its[Len(its) - (1 - (Len(its) % 2))] = StrV(KInfoSyms)
+\* directly inside the document dictionary, between two entries / between a key and its value
+AtEntry(st, md, parity) == InDoc(st) /\ md = "val" /\ Len(st[2].items) % 2 = parity
+NextSpan(cur, st, md, p) ==
+  IF cur[1] = 0 /\ AtEntry(st, md, 1) /\ LastKeyIsInfo(st[2].items) THEN <<p, 0>>   \* key "info" just read
+  ELSE IF cur[1] # 0 /\ cur[2] = 0 /\ AtEntry(st, md, 0) THEN <<cur[1], p>>         \* ... and now its value
+  ELSE cur
 
 Doc == Rec[l]
 
@@ -40,14 +54,15 @@ VerdictOK == /\ ~Doc.panic
              /\ Doc.ok = Accepting
              /\ (Accepting => MatchAll(Values, Doc.vals))
 
-TInit == Init /\ l = 1 /\ pos = 0 /\ bad = <<>>
+TInit == Init /\ l = 1 /\ pos = 0 /\ bad = <<>> /\ sp = <<0, 0>> /\ spans = <<>>
 
 Consume == /\ l <= Len(Rec)
            /\ pos < Len(Doc.inp)
            /\ mode # "dead"
            /\ Step(Doc.inp[pos + 1])
            /\ pos' = pos + 1
-           /\ UNCHANGED <<l, bad>>
+           /\ sp' = NextSpan(sp, stack', mode', pos')
+           /\ UNCHANGED <<l, bad, spans>>
 
 Judge == /\ l <= Len(Rec)
          /\ (pos = Len(Doc.inp) \/ mode = "dead")
@@ -60,11 +75,15 @@ Judge == /\ l <= Len(Rec)
          /\ mode' = "val"
          /\ acc' = Acc0
          /\ nc' = FALSE
+         /\ sp' = <<0, 0>>
+         /\ spans' = Append(spans, sp)
          /\ TLCSet(1, <<l, bad'>>)
+         /\ TLCSet(2, spans')
 
 TNext == Consume \/ Judge
 TSpec == TInit /\ [][TNext]_tvars
 
 Report == /\ PrintT(<<"TRACE_RESULT", TLCGet(1)[1]>>)
           /\ PrintT(<<"TRACE_BAD", TLCGet(1)[2]>>)
+          /\ PrintT(<<"TRACE_SPANS", TLCGet(2)>>)
 =============================================================================
